@@ -16,6 +16,22 @@ REPO = os.environ.get("VERIF_REPO", "/repo")
 
 # (mutant id, property, file, old text, new text)
 MUTANTS = [
+    # ---- C01
+    ("c01-kwargs-dropped", "C01", "rpyc/core/protocol.py",
+     "        return obj(*args, **dict(kwargs))", "        return obj(*args, **dict(kwargs[:1]))"),
+    ("c01-handler-twice", "C01", "rpyc/core/protocol.py",
+     "            res = self._HANDLERS[handler](self, *args)\n",
+     "            res = self._HANDLERS[handler](self, *args)\n            if handler == consts.HANDLE_CALL and seq % 9 == 5:\n                res = self._HANDLERS[handler](self, *args)\n"),
+    ("c01-exc-as-value", "C01", "rpyc/core/protocol.py",
+     "            self._seq_request_callback(msg, seq, True, obj)", "            self._seq_request_callback(msg, seq, not isinstance(obj, ZeroDivisionError), obj)"),
+    ("c01-localref-copy", "C01", "rpyc/core/protocol.py",
+     "            if _pinned is not None:\n                return _pinned[value]",
+     "            if _pinned is not None:\n                import copy\n                return copy.copy(_pinned[value]) if len(_pinned) > 1 else _pinned[value]"),
+    ("c01-nested-tuple-flattened", "C01", "rpyc/core/protocol.py",
+     "            return consts.LABEL_TUPLE, tuple(self._box(item) for item in obj)",
+     "            return consts.LABEL_TUPLE, tuple(self._box(item) for item in (obj if len(obj) != 1 else obj + obj))"),
+    ("c01-pin-removed", "C01", "rpyc/core/protocol.py",
+     "                _pinned = {}\n                self._pin_local_refs(package, _pinned)", "                pass"),
     # ---- C05
     ("c05-read-short", "C05", "rpyc/core/stream.py",
      "            data.append(buf)\n            count -= len(buf)\n        return BYTES_LITERAL(\"\").join(data)\n\n    def write(self, data):\n        try:\n            while data:\n                count = self.sock.send",
